@@ -62,7 +62,7 @@ def _work(args):
         agg['distinct'].update(r['distinct'])
         agg['virtual_s'] += r.get('virtual_s', 0.0)
         agg['events'] += r.get('events', 0)
-        agg['digests'].append((i, r.get('digest', '')))
+        agg['digests'].append(r.get('digest', '')[:12])
         if r['violations'] and known_preds and hasattr(mod, 'classify_known'):
             rest = []
             for v in r['violations']:
@@ -207,6 +207,7 @@ def run_check(prop: str, tier: str, batch_seed: int, runs_override=None) -> int:
     harness_error = None
     cut_short = False
     known_hit = {}
+    digests = set()
     ctx = multiprocessing.get_context('fork')
     with ProcessPoolExecutor(max_workers=workers, mp_context=ctx) as ex:
         pending = set()
@@ -228,6 +229,7 @@ def run_check(prop: str, tier: str, batch_seed: int, runs_override=None) -> int:
                 agg['virtual_s'] += a['virtual_s']
                 agg['events'] += a['events']
                 agg['violations'].extend(a['violations'])
+                digests.update(a.get('digests', ()))
                 for k, v in a.get('known_hits', {}).items():
                     known_hit[k] = known_hit.get(k, 0) + v
                 if len(agg['samples']) < 3:
@@ -299,6 +301,7 @@ def run_check(prop: str, tier: str, batch_seed: int, runs_override=None) -> int:
         'runs_per_hour': int(agg['runs'] / max(wall_s, 1e-6) * 3600),
         'simulated_seconds': round(agg['virtual_s'], 1),
         'events': agg['events'],
+        'distinct_event_log_digests': len(digests - {''}),
         'counters': probes,
         'probes_never_fired': zero,
         'components': desc.get('components', {}),
